@@ -1,7 +1,7 @@
 """C13 -- compaction never changes table contents (row multiset, stable row ids, version columns)."""
 from checks import table_common as T
 
-FAMILIES = [{'name': 'rewrite', 'ids': [1, 2, 3, 4], 'vals': [5], 'maxv': 8, 'maxops': 3, 'maxops_thorough': 4, 'stable': [True, False], 'opkinds': ['compact', 'delete', 'update', 'upsert', 'append', 'checkout']}]
+FAMILIES = [{'name': 'rewrite', 'ids': [1, 2, 3, 4], 'vals': [5], 'maxv': 8, 'maxops': 3, 'maxops_thorough': 4, 'stable': [True, False], 'opkinds': ['compact', 'delete', 'update', 'upsert', 'colupdate', 'append', 'checkout']}]
 
 
 def run(prop, tier, replay):
